@@ -306,6 +306,7 @@ func C06_PreemptReader() {
 	maxV, maxW := 2, 1
 	maxPoints := 40
 	if vTier() == "thorough" {
+		cfg.nKeys = 3
 		maxPoints = 80
 	}
 	h := vStartHist(cfg)
